@@ -345,6 +345,7 @@ class ArgumentParser:
         namespace = argparse.Namespace()
         namespace.defines = []
         namespace.include_paths = []
+        namespace.system_include_paths = []
         namespace.include_files = []
         namespace.modes = []
 
@@ -361,10 +362,10 @@ class ArgumentParser:
             allow_abbrev=False,
         )
         parser.add_argument("-D", dest="defines", action="append")
+        parser.add_argument("-I", dest="include_paths", action="append")
         parser.add_argument(
-            "-I",
             "-isystem",
-            dest="include_paths",
+            dest="system_include_paths",
             action="append",
         )
         parser.add_argument(
@@ -417,7 +418,9 @@ class ArgumentParser:
         for pass_name in args.passes:
             config = PreprocessorConfiguration(
                 args.defines.copy(),
-                args.include_paths.copy(),
+                # Directories named by -isystem are searched after all
+                # directories named by -I, regardless of command-line order.
+                args.include_paths + args.system_include_paths,
                 args.include_files.copy(),
                 pass_name,
             )
